@@ -16,7 +16,7 @@ from ..fa import FA
 from ..loader import AnalysisError
 from .valeq import check_typed_identity
 from .ladders import extract_ladder, check_ladder_order, repo_subclass_pairs
-from .c16 import (FlatInit, canon_conj, conds, fexpand, ftext, is_copy_of, lit_expr, map_shape, origin, same_def, single_def, strip_cast, _ref_name)
+from .c16 import (FlatInit, outliving_state_reads, canon_conj, conds, fexpand, ftext, is_copy_of, lit_expr, map_shape, origin, same_def, single_def, strip_cast, _ref_name)
 
 AH = "reference.ArgumentHasher"
 FRA = "reference.FunctionReferenceWithArguments"
@@ -667,6 +667,50 @@ def _out_literals(node):
     return out
 
 
+def other_inputs(ck, fa, values, subject):
+    """What the values `values` ([(expression, CFG node)] inside fa) are computed from besides the parameter `subject`
+    and constants: (a) another parameter of the function that some call site in the repository binds to something
+    that is not a constant (a parameter nobody passes, or that is only ever given a literal, is a constant of the
+    program: `encoding="utf-8"`); (b) state that outlives the call (module / class level variables that are rebound
+    or mutable).  Returns [(what, description)]; decided on the dependency closure of the values and on the call
+    sites the call graph resolves to the function."""
+    from .c16 import outliving_state_reads, _immutable_constant
+    out = []
+    dp = set()
+    for (e, at) in values:
+        dp |= fa.deps(e, at)
+        for nm in outliving_state_reads(fa, e, at):
+            out.append((nm, "state that outlives the call (%s)" % nm))
+    a = fa.fi.node.args
+    positional = [x.arg for x in a.posonlyargs + a.args]
+    if fa.fi.cls is not None and not fa.fi.is_static and positional:
+        positional = positional[1:]
+    others = sorted(x[len("param:"):] for x in dp if x.startswith("param:") and x[len("param:"):] not in (subject, "self", "cls"))
+    if not others:
+        return out
+    sites = ck.cg.call_sites_of(lambda call, cands: any(c.node is fa.fi.node or c.qual == fa.fi.qual for c in cands))
+    n_pos = len(a.posonlyargs + a.args)
+    defaults = dict(zip([x.arg for x in (a.posonlyargs + a.args)[n_pos - len(a.defaults):]], a.defaults))
+    defaults.update({x.arg: d for x, d in zip(a.kwonlyargs, a.kw_defaults) if d is not None})
+    for p in others:
+        if p in ((a.vararg.arg if a.vararg else None), (a.kwarg.arg if a.kwarg else None)):
+            out.append((p, "whatever else a caller passes (`%s`)" % p))
+            continue
+        if p in defaults and not _immutable_constant(defaults[p]):
+            out.append((p, "the default of its parameter `%s` (`%s`), an object shared by all calls" % (p, A.short(defaults[p], 40))))
+            continue
+        for (cfi, call, cands) in sites:
+            sure = len(cands) == 1 or (fa.fi.cls is not None and A.norm(call.func).endswith("%s.%s" % (fa.fi.cls.name, fa.fi.name)))
+            v = A.kwarg(call, p)
+            if v is None and sure and p in positional and len(call.args) > positional.index(p) \
+                    and not any(isinstance(x, ast.Starred) for x in call.args[:positional.index(p) + 1]):
+                v = call.args[positional.index(p)]
+            if v is not None and not _immutable_constant(v):
+                out.append((p, "its parameter `%s`, which %s binds to `%s`" % (p, cfi.qual, A.short(v, 50))))
+                break
+    return out
+
+
 def _first_key(fa, k):
     """a sort key that selects the mapping key of an (key, value) item: absent, lambda t: t[0], itemgetter(0)"""
     if k is None:
@@ -953,6 +997,16 @@ def check(ck):
         oku = oku and utf8
     ck.ob(R2, ch.key(up, "input"), oku, "the digest input is utf-8(normalized_json(encode(effective kwargs)))" if oku else
           "the digest input is not the UTF-8 canonical JSON of the encoded effective kwargs", ch.where(up))
+    # the key is a function of the effective kwargs alone: nothing else (another argument, a table kept between calls)
+    # finds its way into the digest, the encoded form or the canonical text
+    for (f_, prm_, vals_, what_) in ((ch, CP, [(x_, ch.nodes(x_)[0]) for (_c, x_) in feeds if ch.nodes(x_)], "argument hash"),
+                                     (enc, EP, [(r_.value, enc.nodes(r_)[0]) for r_ in enc.returns() if r_.value is not None and enc.nodes(r_)], "encoded form"),
+                                     (nj, NP, [(r_.value, nj.nodes(r_)[0]) for r_ in nj.returns() if r_.value is not None and nj.nodes(r_)], "canonical text")):
+        extra = other_inputs(ck, f_, vals_, prm_)
+        ck.ob(R2, f_.key(None, "function-of-the-value-only"), not extra, "the %s is computed from `%s` and constants only" % (what_, prm_) if not extra else
+              "the %s is computed from `%s` and also from %s: the key is no longer the SHA-256 of the canonical JSON of the effective kwargs, so a call "
+              "whose bound values differ from what that other source holds gets the key (and the stored result) of another call"
+              % (what_, prm_, "; ".join(sorted({d_ for (_w, d_) in extra}))), f_.where())
     rets = [r for r in ch.returns() if ch.nodes(r)]
     okr = bool(rets)
     for r in rets:
@@ -970,12 +1024,21 @@ def check(ck):
     EXIT = fl.exit
     EMPTY = ("()", "[]", "{}", "tuple()", "list()", "dict()", "tuple([])", "tuple(())")
 
+    kept_why = {}
+
     def normalised_field(fa, field, src):
         ds = fa.df.reaching(fa.cfg.exit, "self." + field)
         if not ds or any(d.kind != "assign" or d.value is None for d in ds):
             return False
         n_norm = 0
         for d in ds:
+            kept = outliving_state_reads(fa, d.value, d.node)
+            if kept:
+                # made from what an earlier construction left behind (a table, a result-keeping helper): equal-comparing
+                # values of different type (1, 1.0, True) come back as whichever was seen first
+                kept_why[field] = "self.%s is answered from %s: a value that compares equal to an earlier one but differs in type (1 / 1.0 / True) " \
+                    "is stored, keyed and passed to the body as the earlier one" % (field, ", ".join(kept))
+                return False
             dp = fa.deps(d.value, d.node)
             if ("call:normalize" in dp or ("call:_decode" in dp and "call:_encode" in dp)) and ("param:" + src) in dp:
                 n_norm += 1
@@ -985,7 +1048,7 @@ def check(ck):
 
     for field, src in (("args", "args"), ("kwargs", "kwargs"), ("context_args", "context_args")):
         ok = normalised_field(ini, field, src)
-        ck.ob(R3, ini.key(None, "normalised-" + field), ok, "self.%s holds the normalised values" % field if ok else
+        ck.ob(R3, ini.key(None, "normalised-" + field), ok, "self.%s holds the normalised values" % field if ok else kept_why.get(field) or
               "self.%s is stored without ArgumentHasher.normalize: the body sees other values than the key was computed from" % field, ini.where())
     ek = fl.ek
     # every read of the normalised fields (and every helper left as a call) sees their final values
@@ -1120,6 +1183,19 @@ def check(ck):
     def classify_merge(a0, at, key, shown):
         """a mapping poured into the result: names zipped with values (positional binding) or keyword arguments"""
         a0 = strip_cast(a0)
+        for _ in range(4):
+            # a stage of its own (`from_args = dict(zip(names, values))`, then `{**bound, **from_args}`): the local is read as
+            # what it was made as — one expression that builds a mapping, or a plain copy of another mapping
+            d0 = single_def(bfa, a0.id, at) if isinstance(a0, ast.Name) else None
+            v0 = strip_cast(d0.value) if d0 is not None else None
+            if v0 is None or any(same_def(d0, d_) for d_ in chain):
+                break
+            if isinstance(v0, ast.DictComp) or (isinstance(v0, ast.Call) and A.call_attr(v0) in ("dict", "zip")):
+                a0 = v0
+                break
+            if is_copy_of(v0) is None:
+                break
+            a0 = strip_cast(is_copy_of(v0))
         if isinstance(a0, ast.Call) and A.call_attr(a0) == "dict" and len(a0.args) == 1 and not a0.keywords:
             a0 = strip_cast(a0.args[0])
         comp_ = a0 if isinstance(a0, ast.DictComp) and len(a0.generators) == 1 and not a0.generators[0].ifs else None
@@ -1304,7 +1380,7 @@ def check(ck):
     fr = FA(ck, "reference.FunctionReference.__init__")
     for field, src in (("_partial_args", "partial_args"), ("_partial_kwargs", "partial_kwargs")):
         ok = normalised_field(fr, field, src)
-        ck.ob(R3, fr.key(None, "normalised" + field), ok, "partial arguments are normalised on the reference" if ok else
+        ck.ob(R3, fr.key(None, "normalised" + field), ok, "partial arguments are normalised on the reference" if ok else kept_why.get(field) or
               "self.%s is stored without normalisation" % field, fr.where())
     pn = [s for s in fr.stmts(ast.Assign) if any(A.dotted(t) == "self.parameter_names" for t in s.targets) and fr.nodes(s)]
     mf = "memento_fn" if "memento_fn" in fr.fi.params else (fr.fi.params[1] if len(fr.fi.params) > 1 else "memento_fn")
